@@ -38,7 +38,14 @@ func (h *H) stepInject(m *Mon, foreign bool) {
 	if p == nil {
 		return
 	}
+	synced := m == h.Pub && h.sameHead()
 	h.inject(m, p.Txn, p.Class, foreign)
+	// the same transaction often reaches other nodes too: mirror it into the follower's pool,
+	// so that blocks later confirm transactions of which the follower holds only some
+	if synced && h.Rng.Intn(2) == 0 {
+		h.R.Count("inject.mirrored", 1)
+		h.inject(h.Fol, p.Txn, p.Class+"/mirror", true)
+	}
 }
 
 func (h *H) inject(m *Mon, t coin.Transaction, class string, foreign bool) {
